@@ -38,7 +38,7 @@ structure EntryOK (c : Content) : Prop where
   noSetgidBit : hasBit (cinfo c).mode modeSetgidBit = false
   noStickyBit : hasBit (cinfo c).mode modeStickyBit = false
   noDirBit : isDirType c.type = false → hasBit (cinfo c).mode modeDirBit = false
-  noSymlinkBit : isDirType c.type = false → hasBit (cinfo c).mode modeSymlinkBit = false
+  noSymlinkBit : hasBit (cinfo c).mode modeSymlinkBit = false
   mtimeSet : isZeroT (cinfo c).mtime = false
 
 theorem debMode_plain (fm : Nat) (h1 : hasBit fm modeSetuidBit = false) (h2 : hasBit fm modeSetgidBit = false)
@@ -55,6 +55,17 @@ theorem mtimeGet_set (now t : Int) (h : isZeroT t = false) : mtimeGet now [t] = 
 /-- the member list of a tar format with times as archive/tar stores them -/
 def stored (m : Member) : Member := { m with mtime := tarTime m.mtime }
 
+/-- **deb: a declared symlink is shipped as a symlink with its literal target, whatever mode bits its file info carries**
+    – in particular the directory bit that preparation picks up when the target happens to be a directory on the build
+    host.  (`EntryOK.noDirBit` below is a hypothesis the refinement proof forced; the point it excludes was run against
+    the real code and was a defect: the entry was written as a directory.  Repaired in /repo by 37116f4, and this
+    theorem states the repaired behaviour without that hypothesis.) -/
+theorem deb_declared_symlink_is_a_symlink (now imt : Int) (c : Content) (h : c.type = T.symlink) :
+    ∃ m, debMember1 now imt c = some m ∧ m.kind = tSym ∧ m.link = c.src ∧ m.name = asExplicitRel c.dst := by
+  refine ⟨debHeader now [imt] c, ?_, ?_, ?_, ?_⟩
+  · simp [debMember1, h, show ¬ T.symlink = T.ghost by decide, show isDirType T.symlink = false by decide]
+  all_goals simp [debHeader, h]
+
 /-- **deb**: the data.tar member written for an entry denotes exactly that entry. -/
 theorem deb_member_denotes (now imt : Int) (c : Content) (h : EntryOK c) :
     (debMember1 now imt c).map (fun m => logical1 .deb (stored m)) = denote1 .deb c := by
@@ -69,12 +80,13 @@ theorem deb_member_denotes (now imt : Int) (c : Content) (h : EntryOK c) :
       simp only [hg, if_false, hd, if_true]
       have hcl : (c.type == T.debChangelog) = false := by
         rw [beq_eq_false_iff_ne]; intro e; rw [e] at hd; revert hd; decide
-      simp [hcl, hg, debHeader, hd, logical1, stored, tDir, tSym, hmode, and_7777_idem, hdst, hname]
+      have hsy : ¬ c.type = T.symlink := by intro e; rw [e] at hd; revert hd; decide
+      simp [hcl, hg, debHeader, hd, hsy, h.noSymlinkBit, logical1, stored, tDir, tSym, hmode, and_7777_idem, hdst, hname]
     · simp only [Bool.not_eq_true] at hd
       have hname := pathOfName_explicit .deb (Or.inl rfl) false x hx
       simp only [hd] at hdst
       have hnd := h.noDirBit hd
-      have hns := h.noSymlinkBit hd
+      have hns := h.noSymlinkBit
       by_cases hs : c.type = T.symlink
       · have hcl : (c.type == T.debChangelog) = false := by rw [hs]; decide
         have hgb : (c.type == T.ghost) = false := by rw [hs]; decide
